@@ -1,6 +1,175 @@
-"""Verus leg (filled in below)."""
+"""Verus leg: one generated file per unit, `verus f.rs --output-json --time`.
+Every function in Verus's function-breakdown is one obligation.  Functions
+named canary_* MUST FAIL (they state `ensures false` under a contract's
+precondition: if one verifies the precondition is contradictory => vacuous)."""
+import json
+import os
+import re
+
+from . import extract
+from .common import VERIF, sh, log
+
+VDIR = os.path.join(VERIF, "verus")
 UNITS = []
+
+
+def unit(name, props, quick=True, rlimit=60, search=None):
+    def deco(fn):
+        UNITS.append({"name": name, "props": props, "quick": quick, "build": fn, "rlimit": rlimit, "search": search})
+        return fn
+    return deco
+
+
 def select(prop, tier):
-    return [u for u in UNITS if prop in u["props"]]
+    return [u for u in UNITS if prop in u["props"] and (tier == "thorough" or u["quick"])]
+
+
 def run_unit(sc, u, tier):
-    return []
+    """-> list of obligation records"""
+    name = u["name"]
+    recs = []
+    base = {"backend": "verus/z3", "kind": "V", "config": "source", "harness": "", "replay_mode": "none",
+            "solver": "z3", "bounded": None, "covers": None}
+    try:
+        built = u["build"](sc)
+    except extract.ExtractError as ex:
+        return [dict(base, name="verus:%s" % name, id="verus:" + name, function="", domain="", verdict="undecided",
+                     reason="extraction: %s" % ex, seconds=None, checks=0, cmd="")]
+    text, meta = built["text"], built
+    wd = os.path.join(sc.root, "verus")
+    os.makedirs(wd, exist_ok=True)
+    path = os.path.join(wd, name + ".rs")
+    with open(path, "w") as fh:
+        fh.write(text)
+    cmd = ["verus", path, "--output-json", "--time", "--rlimit", str(u["rlimit"])]
+    rc, out, secs = sh(cmd + ["--multiple-errors", "20"], cwd=wd, timeout=1500)
+    cmd_s = "verus <generated %s.rs from /repo> --output-json --time --rlimit %d" % (name, u["rlimit"])
+    # stdout is JSON followed/preceded by diagnostics on stderr (merged): split
+    j = None
+    m = re.search(r"^\{\n.*?^\}\n", out, re.S | re.M)
+    if m:
+        try:
+            j = json.loads(m.group(0))
+        except Exception:
+            j = None
+    diag = out if not m else out[:m.start()] + out[m.end():]
+    if os.environ.get("VERIF_KEEP_SCRATCH") or True:
+        keep = os.path.join(VERIF, ".cache", "verus-last")
+        os.makedirs(keep, exist_ok=True)
+        with open(os.path.join(keep, name + ".rs"), "w") as fh:
+            fh.write(text)
+        with open(os.path.join(keep, name + ".log"), "w") as fh:
+            fh.write(out)
+    if j is None or "verification-results" not in j:
+        return [dict(base, name="verus:%s" % name, id="verus:" + name, function=meta.get("function", ""), domain="",
+                     verdict="undecided", reason="verus produced no result (parse/mode error or tool failure): " + first_err(diag),
+                     seconds=secs, checks=0, cmd=cmd_s)]
+    vr = j["verification-results"]
+    if vr.get("encountered-vir-error"):
+        return [dict(base, name="verus:%s" % name, id="verus:" + name, function=meta.get("function", ""), domain="",
+                     verdict="undecided", reason="verus rejected the generated file (unsupported construct / type error after a source change): " + first_err(diag),
+                     seconds=secs, checks=0, cmd=cmd_s)]
+    fb = []
+    for mod in j.get("times-ms", {}).get("smt", {}).get("smt-run-module-times", []):
+        fb += mod.get("function-breakdown", [])
+    seen = {}
+    for f in fb:
+        fn = f["function"].split("::", 1)[-1]
+        ok = f["success"]
+        if fn in seen:
+            seen[fn]["success"] = seen[fn]["success"] and ok
+            seen[fn]["time"] += f.get("time-micros", 0)
+        else:
+            seen[fn] = {"success": ok, "time": f.get("time-micros", 0), "mode": f.get("mode:", "")}
+    rlimit_hit = bool(re.search(r"Resource limit \(rlimit\) exceeded|rlimit exceeded|timed out", diag))
+    errors = split_errors(diag)
+    expected = meta.get("expect", [])
+    for fn in expected:
+        if fn not in seen:
+            recs.append(dict(base, name="verus:%s.%s" % (name, fn), id="verus:%s.%s" % (name, fn), function=meta.get("function", ""),
+                             domain="", verdict="undecided", reason="expected obligation missing from Verus output (silently dropped?)",
+                             seconds=None, checks=0, cmd=cmd_s))
+    for fn, info in seen.items():
+        is_canary = fn.split("::")[-1].startswith("canary_")
+        my_errs = [e for e in errors if fn.split("::")[-1] in meta.get("fn_lines_lookup", lambda e: [])(e)] if False else []
+        rec = dict(base, name="verus:%s.%s" % (name, fn), id="verus:%s.%s" % (name, fn),
+                   function=meta.get("functions", {}).get(fn.split("::")[-1], meta.get("function", "")),
+                   domain=meta.get("domain", "all inputs satisfying the precondition (unbounded)"),
+                   seconds=round(info["time"] / 1e6, 3), checks=1, cmd=cmd_s,
+                   assumptions=meta.get("assumptions", []), fidelity_report=meta.get("fidelity"))
+        if is_canary:
+            rec["kind"] = "V-canary"
+            if info["success"]:
+                rec["verdict"] = "undecided"
+                rec["reason"] = "vacuity canary verified: the precondition it guards is contradictory"
+            else:
+                rec["verdict"] = "discharged"
+                rec["reason"] = "canary fails as required (precondition is satisfiable)"
+        elif info["success"]:
+            rec["verdict"] = "discharged"
+        else:
+            errs = errors_for(text, errors, fn.split("::")[-1])
+            sem = [e for e in errs if not re.search(r"rlimit|timed out", e)]
+            if rlimit_hit and not sem:
+                rec["verdict"] = "undecided"
+                rec["reason"] = "rlimit/timeout: " + " || ".join(errs)[:600]
+            else:
+                rec["verdict"] = "failed"
+                rec["reason"] = " || ".join(errs)[:1500] or "verus reports failure"
+                rec["verifier_output"] = "\n".join(errs)[:6000]
+                rec["failed_checks"] = [{"description": e.split("\n")[0], "location": loc_of(e)} for e in errs]
+                if u.get("search"):
+                    rec["search_fn"] = u["search"]
+        recs.append(rec)
+    if not seen:
+        recs.append(dict(base, name="verus:%s" % name, id="verus:" + name, function="", domain="", verdict="undecided",
+                         reason="no obligations generated", seconds=secs, checks=0, cmd=cmd_s))
+    return recs
+
+
+def first_err(diag):
+    m = re.search(r"^(error.*(?:\n.*){0,8})", diag, re.M)
+    return (m.group(1) if m else diag[-600:]).replace("\n", " | ")[:900]
+
+
+def split_errors(diag):
+    parts = re.split(r"\n(?=error)", "\n" + diag)
+    return [p.strip() for p in parts if p.strip().startswith("error") and "aborting due to" not in p]
+
+
+def loc_of(e):
+    m = re.search(r"--> (\S+)", e)
+    return m.group(1) if m else ""
+
+
+def fn_ranges(text):
+    """line ranges [start of fn, start of next fn) in the generated file"""
+    starts = []
+    for m in re.finditer(r"^[ \t]*(?:pub(?:\([a-z]+\))?\s+)?(?:open\s+|closed\s+|uninterp\s+)?(?:proof\s+|spec\s+|exec\s+)?fn\s+(\w+)", text, re.M):
+        starts.append((m.group(1), text.count("\n", 0, m.start()) + 1))
+    total = text.count("\n") + 1
+    rng = []
+    for k, (name, l0) in enumerate(starts):
+        l1 = starts[k + 1][1] - 1 if k + 1 < len(starts) else total
+        rng.append((name, l0, l1))
+    return rng
+
+
+def errors_for(text, errors, fn):
+    rng = [(n, a, b) for n, a, b in fn_ranges(text) if n == fn]
+    out = []
+    for e in errors:
+        lines = [int(x) for x in re.findall(r"--> \S+?:(\d+):\d+", e)]
+        if not rng:
+            out.append(e)
+        elif any(a <= ln <= b for ln in lines for _, a, b in rng):
+            out.append(e)
+    return out
+
+
+def read(rel):
+    with open(os.path.join(VDIR, rel)) as fh:
+        return fh.read()
+
+
+from . import verus_units  # noqa: E402,F401  (registers the units)
